@@ -73,7 +73,7 @@ func c18evict(c *Ctx, fn *ssa.Function) {
 	r.Check(okF, "PATH", key+"/evict<=pod-filter", c.InstrPos(ev), "only pods passing the evictor's filters", "Evict is not dominated by podFilter(pod)==true")
 	r.Check(okD, "PATH", key+"/evict<=!dryRun", c.InstrPos(ev), "dry-run evicts nothing", "Evict is not dominated by dryRun==false")
 	// condition first in the iteration: it dominates the filter call and the eviction, and is re-evaluated per iteration
-	r.Check(instrBefore(conds[0], filters[0]) && instrBefore(conds[0], ev), "PATH", key+"/condition-first", c.InstrPos(conds[0]), "the condition is evaluated before anything else in the iteration", "the continue-condition is not evaluated first in the iteration")
+	r.Check(mustPass(conds[0], filters[0]) && mustPass(conds[0], ev), "PATH", key+"/condition-first", c.InstrPos(conds[0]), "the condition is evaluated before anything else in the iteration", "the continue-condition is not evaluated first in the iteration")
 	// re-evaluation between two evictions: from after Evict (success) the Evict call is not reachable without passing the condition again
 	reach := an.Explore(fn, an.After(ev), an.Facts{ev.Value(): an.True}, func(in ssa.Instruction) bool { return in == ssa.Instruction(conds[0]) })
 	r.Check(!reach.Reached(ev), "PATH", key+"/re-evaluated-between-evictions", c.InstrPos(ev), "the condition is re-evaluated before the next eviction", "a second eviction is reachable without re-evaluating the continue-condition")
